@@ -691,7 +691,11 @@ class Common:
                 # them as separate relays, instead of merging them all
                 # together like this.
                 relay_hints = []
-                for rhs in h.get("hints", []):
+                sub_hints = h.get("hints", [])
+                if not isinstance(sub_hints, list):
+                    log.msg(f"invalid relay hint ('hints' is not a list): {h!r}")
+                    continue
+                for rhs in sub_hints:
                     h = parse_tcp_v1_hint(rhs)
                     if h:
                         relay_hints.append(h)
